@@ -11,6 +11,7 @@ that a gate defect does not raise an alarm for C04 and vice versa.
 """
 import json
 import os
+import re
 import subprocess
 import time
 
@@ -18,7 +19,8 @@ import vcheck
 
 OVERLAY = {"runner/zz_verif_harness.go": "hook.go",
            "cmd/verif_runner/main.go": "main.go",
-           "cmd/verif_runner/sched.go": "sched.go"}
+           "cmd/verif_runner/sched.go": "sched.go",
+           "cmd/verif_runner/project.go": "project.go"}
 
 # which property's mechanism an event kind belongs to
 EVENT_PROPERTY = {
@@ -38,7 +40,9 @@ RULE = ("graphs: 17 fixed shapes (single, unknown root, self-loop, chain, duplic
         "1/8 failing) x limits 1-3, each under random and PCT schedules; model-supplied schedules = paths of the "
         "model's breadth-first tree for every graph of <= 2 nodes (thorough: <= 3 nodes) and the fixed shapes of <= 4 "
         "nodes, limits 1,2; exhaustive interleavings with sleep sets (thorough: all fixed shapes of <= 3 nodes, depth "
-        "bound 40+45n); free-running builds of random graphs of <= 14 (thorough 40) nodes on 1, 2, 16 CPUs. "
+        "bound 40+45n); free-running builds of random graphs of <= 14 (thorough 40) nodes and fan-in graphs (2-16 siblings "
+        "requesting the same 1-4 targets at the same moment) on 1, 2, 16 CPUs; the same fixed shapes and random graphs of "
+        "<= 9 nodes rendered as BUILD.dawn files and built through dawn.Project (events judged). "
         "A case is one execution; distinct by (graph, schedule).")
 
 
@@ -85,7 +89,7 @@ def model_schedules(c, drv, path):
     lines = ["sched %s %d %d" % r for r in reqs]
     t = time.time()
     outs = c.run_driver(drv, lines)
-    states = complete = nsched = 0
+    states = complete = nsched = stuck = 0
     with open(path, "w") as f:
         for (p, _, _), o in zip(reqs, outs):
             if not o.startswith("ok "):
@@ -94,12 +98,16 @@ def model_schedules(c, drv, path):
             kv = dict(x.split("=", 1) for x in o[3:].split(" ") if "=" in x)
             states += int(kv.get("states", 0))
             complete += int(kv.get("complete", 0))
+            stuck += int(kv.get("stuck", 0))
             for sch in kv.get("scheds", "").split(";"):
                 if sch:
                     f.write("%s %s\n" % (p, sch))
                     nsched += 1
     c.coverage["model_exploration"] = {"graphs": len(reqs), "states_visited": states, "graphs_explored_completely": complete,
+                                       "stuck_unfinished_states_in_the_model": stuck,
                                        "schedules_supplied": nsched, "seconds": round(time.time() - t, 1)}
+    if stuck:
+        c.broken.append("the model has %d reachable stuck states (contradicts C05_deadlock_free)" % stuck)
     return nsched
 
 
@@ -186,6 +194,9 @@ def refine(c, pid, stream, drv, ps):
         elif m.startswith("fail "):
             f = m.split(" ", 3)
             owner = event_property(f[2]) if len(f) > 2 else "C05"
+            at = re.search(r"model thread \d+ is at ([a-z])", m)
+            if at and at.group(1) in "adil":
+                owner = "C09"  # the model's thread is at a gate operation the implementation skipped or moved
             if not g.startswith("ok "):
                 owner = "C05"  # the implementation itself did not finish (deadlock / stuck)
             if owner == pid or (not g.startswith("ok ") and pid == "C09" and "block:gate" in i.rsplit(",", 3)[-1]):
@@ -278,6 +289,9 @@ def run(c, pid, assumptions):
     for stream, ps in sorted(pairs.items()):
         if stream.startswith("runner.stress"):
             final_states(c, pid, stream, drv, ps)
+        elif stream.startswith("runner.project"):
+            # judge only: the runner under its real client dawn.Project / runTarget.Evaluate (events observed)
+            c.count(stream, len(ps), distinct_keys=[p[0] for p in ps], sample={"graph": ps[0][0]} if ps else None)
         else:
             refine(c, pid, stream, drv, ps)
     mine = [v for v in viols if v.get("property") == pid]
@@ -314,7 +328,7 @@ def replay(c, pid, case):
     bad = [v for v in viols if v.get("property") == pid]
     if drv:
         for stream, ps in pairs.items():
-            if stream.startswith("runner.stress"):
+            if stream.startswith("runner.stress") or stream.startswith("runner.project"):
                 continue
             for (i, g), m in zip(ps, c.run_driver(drv, [x[0] for x in ps])):
                 print("model: " + m)
